@@ -437,6 +437,11 @@ def _getter_value(case, inp):
 
 
 def decorate(case, raw, opts):
+    return decorator_for(case, opts)(raw)
+
+
+def decorator_for(case, opts):
+    """The decorator *object* (raw -> decorated), so that one object can be applied to several callables."""
     import pandera as pa
 
     kw = nondefault_opts(opts)
@@ -448,22 +453,22 @@ def decorate(case, raw, opts):
 
     if deco == "check_types":
         if case.get("bare") and not kw:
-            return pa.check_types(raw)
-        return pa.check_types(**kw)(raw)
+            return pa.check_types
+        return pa.check_types(**kw)
     if deco == "check_output":
         (o,) = case["outs"]
-        return pa.check_output(schema_of(o["schema"]), out_getter(o), **kw)(raw)
+        return pa.check_output(schema_of(o["schema"]), out_getter(o), **kw)
     if deco == "check_input":
         (inp,) = case["inputs"]
         di = pa.check_input(schema_of(inp["schema"]), _getter_value(case, inp), **kw)
         outs = case.get("outs") or []
         if not outs:
-            return di(raw)
+            return di
         (o,) = outs
         do = pa.check_output(schema_of(o["schema"]), out_getter(o), **kw)
         if case.get("stack") == "out_outer":
-            return do(di(raw))
-        return di(do(raw))
+            return lambda raw: do(di(raw))
+        return lambda raw: di(do(raw))
     if deco == "check_io":
         outs = case.get("outs") or []
         form = case.get("out_form", "list")
@@ -476,7 +481,7 @@ def decorate(case, raw, opts):
         else:
             out = [(out_getter(o), schema_of(o["schema"])) for o in outs]
         ins = {i["name"]: schema_of(i["schema"]) for i in case.get("inputs", [])}
-        return pa.check_io(out=out, **kw, **ins)(raw)
+        return pa.check_io(out=out, **kw, **ins)
     raise HarnessError(f"bad deco {deco}")
 
 
@@ -492,12 +497,12 @@ def exc_class(e):
     return "other:" + type(e).__name__
 
 
-def observed(case, opts):
+def observed(case, opts, decorator=None):
     w = World(case)
     raw = w.make_fn()
     res = {"raised": None, "deco_error": None, "msg": None}
     try:
-        dec = decorate(case, raw, opts)
+        dec = decorate(case, raw, opts) if decorator is None else decorator(raw)
     except HarnessError:
         raise
     except Exception as e:
@@ -518,6 +523,16 @@ def observed(case, opts):
         call = lambda: w.obj.f(*args, **kwargs)  # noqa: E731
     was_coro = None
     out = None
+    # Hypothesis seeds numpy's global generator with 0 before every example, which makes an *unseeded*
+    # DataFrame.sample indistinguishable from random_state=0: move the global generator somewhere else (a function of the
+    # case) for the decorated call, so that a random_state the decorator fails to pass on shows as a different sample.
+    import numpy as np
+
+    import json
+    import zlib
+
+    np_state = np.random.get_state()
+    np.random.seed(1000 + zlib.crc32(json.dumps(case, sort_keys=True, default=str).encode()) % (2**31))
     try:
         r = call()
         was_coro = inspect.iscoroutine(r)
@@ -527,6 +542,8 @@ def observed(case, opts):
     except Exception as e:  # whatever pandera / the body raised
         res["raised"] = exc_class(e)
         res["msg"] = str(e)[:160]
+    finally:
+        np.random.set_state(np_state)
     res.update(body_calls=len(w.log), log=w.log, result=None if res["raised"] else w.snap(out),
                caller_state=w.caller_state(), raw_out=w.raw_out, was_coroutine=was_coro)
     return res
